@@ -379,8 +379,14 @@ fn main() {
     };
 
     // ---- stage 1: regression corpus -------------------------------------------------------
-    let corpus_dir = "/verif/corpus/C04";
-    let mut corpus_files: Vec<_> = std::fs::read_dir(corpus_dir)
+    // the corpus lives beside the lake project (never under the repo under test)
+    let corpus_dir = {
+        let lean = qverif::lean_dir();
+        let root = std::path::Path::new(&lean).parent().map(|p| p.to_path_buf()).unwrap_or_default();
+        let local = root.join("corpus/C04");
+        if local.is_dir() { local.to_string_lossy().to_string() } else { "/verif/corpus/C04".to_string() }
+    };
+    let mut corpus_files: Vec<_> = std::fs::read_dir(&corpus_dir)
         .map(|d| d.filter_map(|e| e.ok()).map(|e| e.path()).filter(|p| p.extension().map(|x| x == "json").unwrap_or(false)).collect())
         .unwrap_or_default();
     corpus_files.sort();
